@@ -186,22 +186,228 @@ theorem C30_match_result_is_mkList (c : Cx α) (f : Nat) (a b : G) (i n : Nat) (
     simp only [mkList, V.list.injEq, List.cons.injEq, and_true, true_and] at hp
     exact ⟨(s, r) :: pairs, by simp [mkList, hp]⟩
 
+/-! ## the order in which the helpers call their callback -/
+
+section Order
+variable {σ : Type}
+
+/-- Left-to-right application of a stateful callback. -/
+def mapS {β : Type} (f : σ → V α → σ × β) : σ → List (V α) → σ × List β
+  | s, [] => (s, [])
+  | s, v :: r => let a := f s v; let b := mapS f a.1 r; (b.1, a.2 :: b.2)
+
+theorem mapSecondsS_pairs {β : Type} (f : σ → V α → σ × β) (pairs : List (V α × V α)) (s : σ) :
+    mapSecondsS f s (pairs.map fun p => .list [p.1, p.2]) =
+      ((mapS f s (pairs.map (·.2))).1, .ok (mapS f s (pairs.map (·.2))).2) := by
+  induction pairs generalizing s with
+  | nil => rfl
+  | cons p rest ih => simp [mapSecondsS, second, ih, mapS]
+
+/-- `ListOp` calls `fn` on the `R` results in source order — `fn(r₀)`, `fn(r₁)`, … — each
+exactly once, and returns the values in that order (state-passing callback: the final state
+and every returned value are those of the left-to-right traversal). -/
+theorem C30_listOp_calls_in_order {β : Type} (f : σ → V α → σ × β) (s : σ) (r0 : V α)
+    (pairs : List (V α × V α)) :
+    listOpS f s (mkList r0 pairs) =
+      ((mapS f s (r0 :: pairs.map (·.2))).1, .ok (mapS f s (r0 :: pairs.map (·.2))).2) := by
+  simp [mkList, listOpS, mapSecondsS_pairs, mapS]
+
+theorem mapS_log (l : List (V α)) (log : List (V α)) :
+    (mapS (fun (lg : List (V α)) v => (lg ++ [v], v)) log l).1 = log ++ l := by
+  induction l generalizing log with
+  | nil => simp [mapS]
+  | cons v r ih => simp [mapS, ih]
+
+/-- With a logging callback the log of `ListOp` is exactly the `R` results in source order. -/
+theorem C30_listOp_log (r0 : V α) (pairs : List (V α × V α)) :
+    (listOpS (fun (lg : List (V α)) v => (lg ++ [v], v)) [] (mkList r0 pairs)).1 =
+      r0 :: pairs.map (·.2) := by
+  rw [C30_listOp_calls_in_order]
+  simpa using mapS_log (r0 :: pairs.map (·.2)) ([] : List (V α))
+
+/-- With a callback that ignores the state `listOpS` is `listOp`. -/
+theorem listOpS_pure {β : Type} (g : V α → β) (s : σ) (r0 : V α) (pairs : List (V α × V α)) :
+    (listOpS (fun st v => (st, g v)) s (mkList r0 pairs)).2 = listOp g (mkList r0 pairs) := by
+  rw [C30_listOp_calls_in_order, C30_listOp_map]
+  have : ∀ (l : List (V α)) (st : σ), (mapS (fun st v => (st, g v)) st l).2 = l.map g := by
+    intro l
+    induction l with
+    | nil => intro st; rfl
+    | cons v r ih => intro st; simp [mapS, ih]
+  simp [this]
+
+theorem rangeSecondsS_pairs (f : σ → V α → σ) (pairs : List (V α × V α)) (s : σ) :
+    rangeSecondsS f s (pairs.map fun p => .list [p.1, p.2]) = ((pairs.map (·.2)).foldl f s, false) := by
+  induction pairs generalizing s with
+  | nil => rfl
+  | cons p rest ih => simp [rangeSecondsS, second, ih]
+
+/-- `RangeOp` calls `fn` on the `R` results in source order, each exactly once. -/
+theorem C30_rangeOp_calls_in_order (f : σ → V α → σ) (s : σ) (r0 : V α) (pairs : List (V α × V α)) :
+    rangeOpS f s (mkList r0 pairs) = ((r0 :: pairs.map (·.2)).foldl f s, false) := by
+  simp [mkList, rangeOpS, rangeSecondsS_pairs]
+
+theorem foldOpsS_pairs (fn : σ → Nat → V α → V α → σ × V α) (ops : List (Nat × V α)) (s : σ) (acc : V α) :
+    foldOpsS fn s acc ((opPairs ops).map fun p => .list [p.1, p.2]) =
+      ((ops.foldl (fun (st : σ × V α) p => fn st.1 p.1 st.2 p.2) (s, acc)).1,
+       .ok (ops.foldl (fun (st : σ × V α) p => fn st.1 p.1 st.2 p.2) (s, acc)).2) := by
+  induction ops generalizing s acc with
+  | nil => rfl
+  | cons p rest ih =>
+    simp only [opPairs, List.map_cons, foldOpsS, opAndY, List.foldl_cons]
+    simpa [opPairs] using ih (fn s p.1 acc p.2).1 (fn s p.1 acc p.2).2
+
+/-- `BinaryOp(false, …)` calls `fn(op₁, x₀, x₁)`, then `fn(op₂, ·, x₂)`, … in source order,
+once per separator; operands are passed as they are (a list-valued operand is opaque). -/
+theorem C30_binaryOp_calls_in_order (fn : σ → Nat → V α → V α → σ × V α) (s : σ) (x0 : V α)
+    (ops : List (Nat × V α)) :
+    binaryOpNRS fn s (mkList x0 (opPairs ops)) =
+      ((ops.foldl (fun (st : σ × V α) p => fn st.1 p.1 st.2 p.2) (s, x0)).1,
+       .ok (ops.foldl (fun (st : σ × V α) p => fn st.1 p.1 st.2 p.2) (s, x0)).2) := by
+  simp only [mkList, binaryOpNRS]
+  exact foldOpsS_pairs fn ops s x0
+
+/-- Operand of `BinaryOpR` with a stateful callback. -/
+def evalOperandS (fn : σ → Nat → V α → V α → σ × V α) (fuel : Nat) : σ → V α → σ × HRes (V α) :=
+  operandWithS (binaryOpRS fn fuel)
+
+/-- Evaluation order of `BinaryOp(true, …)` over the logical `(op, operand)` pairs: evaluate the
+operand (its nested calls happen now), then call `fn(op, acc, operand)`; left to right. -/
+def foldSpecS (ev : σ → V α → σ × HRes (V α)) (fn : σ → Nat → V α → V α → σ × V α) :
+    σ → V α → List (Nat × V α) → σ × HRes (V α)
+  | s, acc, [] => (s, .ok acc)
+  | s, acc, p :: rest =>
+    match ev s p.2 with
+    | (s1, .ok y') => let r := fn s1 p.1 acc y'; foldSpecS ev fn r.1 r.2 rest
+    | (s1, .panic) => (s1, .panic)
+    | (s1, .fuel) => (s1, .fuel)
+
+theorem foldOpsRS_pairs (ev : σ → V α → σ × HRes (V α)) (fn : σ → Nat → V α → V α → σ × V α)
+    (ops : List (Nat × V α)) (s : σ) (acc : V α) :
+    foldOpsRS ev fn s acc ((opPairs ops).map fun p => .list [p.1, p.2]) = foldSpecS ev fn s acc ops := by
+  induction ops generalizing s acc with
+  | nil => rfl
+  | cons p rest ih =>
+    simp only [opPairs, List.map_cons, foldOpsRS, opAndY, foldSpecS]
+    rcases hev : ev s p.2 with ⟨s1, r⟩
+    cases r with
+    | ok y' => simpa [opPairs] using ih (fn s1 p.1 acc y').1 (fn s1 p.1 acc y').2
+    | panic => rfl
+    | fuel => rfl
+
+theorem binaryOpRS_succ (fn : σ → Nat → V α → V α → σ × V α) (f : Nat) (s : σ) (inp : List (V α)) :
+    binaryOpRS fn (f + 1) s inp =
+      match inp with
+      | [] => (s, .panic)
+      | x :: rest =>
+        match evalOperandS fn f s x with
+        | (s1, .ok x') =>
+          match rest with
+          | .list next :: _ => foldOpsRS (evalOperandS fn f) fn s1 x' next
+          | _ => (s1, .panic)
+        | (s1, .panic) => (s1, .panic)
+        | (s1, .fuel) => (s1, .fuel) := by
+  cases inp <;> rfl
+
+/-- `BinaryOp(true, …)`: the first operand is evaluated first, then for every `(op, operand)`
+pair in source order the operand is evaluated and `fn(op, acc, operand)` is called. -/
+theorem C30_binaryOpR_calls_in_order (fn : σ → Nat → V α → V α → σ × V α) (f : Nat) (s : σ)
+    (x0 : V α) (ops : List (Nat × V α)) :
+    binaryOpRS fn (f + 1) s (mkList x0 (opPairs ops)) =
+      match evalOperandS fn f s x0 with
+      | (s1, .ok x0') => foldSpecS (evalOperandS fn f) fn s1 x0' ops
+      | (s1, .panic) => (s1, .panic)
+      | (s1, .fuel) => (s1, .fuel) := by
+  rw [binaryOpRS_succ]
+  simp only [mkList]
+  rcases evalOperandS fn f s x0 with ⟨s1, r⟩
+  cases r with
+  | ok x0' => exact foldOpsRS_pairs _ fn ops s1 x0'
+  | panic => rfl
+  | fuel => rfl
+
+/-- With a callback that ignores the state the stateful helpers are the pure ones. -/
+theorem foldOpsS_pure (g : Nat → V α → V α → V α) (s : σ) : ∀ (l : List (V α)) (acc : V α),
+    foldOpsS (fun st o x y => (st, g o x y)) s acc l = (s, foldOps g acc l) := by
+  intro l
+  induction l with
+  | nil => intro acc; rfl
+  | cons v rest ih =>
+    intro acc
+    simp only [foldOpsS, foldOps]
+    cases opAndY v with
+    | ok p => simpa using ih (g p.1 acc p.2)
+    | panic => rfl
+    | fuel => rfl
+
+theorem binaryOpNRS_pure (g : Nat → V α → V α → V α) (s : σ) (inp : List (V α)) :
+    binaryOpNRS (fun st o x y => (st, g o x y)) s inp = (s, binaryOpNR g inp) := by
+  unfold binaryOpNRS binaryOpNR
+  split
+  · exact foldOpsS_pure g s _ _
+  · rfl
+
+theorem binaryOpRS_pure (g : Nat → V α → V α → V α) : ∀ (f : Nat) (s : σ) (inp : List (V α)),
+    binaryOpRS (fun st o x y => (st, g o x y)) f s inp = (s, binaryOpR g f inp) := by
+  intro f
+  induction f with
+  | zero => intro s inp; rfl
+  | succ f ih =>
+    intro s inp
+    have hop : ∀ (s : σ) (v : V α),
+        evalOperandS (fun st o x y => (st, g o x y)) f s v = (s, evalOperand g f v) := by
+      intro s v
+      cases v <;> simp [evalOperandS, evalOperand, operandWithS, operandWith, ih]
+    have hfold : ∀ (l : List (V α)) (s : σ) (acc : V α),
+        foldOpsRS (evalOperandS (fun st o x y => (st, g o x y)) f) (fun st o x y => (st, g o x y)) s acc l =
+          (s, foldOpsR (evalOperand g f) g acc l) := by
+      intro l
+      induction l with
+      | nil => intro s acc; rfl
+      | cons v rest ihl =>
+        intro s acc
+        simp only [foldOpsRS, foldOpsR]
+        cases opAndY v with
+        | ok p =>
+          simp only [hop]
+          cases evalOperand g f p.2 with
+          | ok y' => simpa using ihl s (g p.1 acc y')
+          | panic => rfl
+          | fuel => rfl
+        | panic => rfl
+        | fuel => rfl
+    rw [binaryOpRS_succ, binaryOpR_succ]
+    cases inp with
+    | nil => rfl
+    | cons x rest =>
+      simp only [hop]
+      cases evalOperand g f x with
+      | ok x' =>
+        simp only
+        split
+        · exact hfold _ s x'
+        · rfl
+      | panic => rfl
+      | fuel => rfl
+
+end Order
+
 /-! ## the helpers leave the match result alone -/
 
 /-- Helpers are functions of the result tree: in a sequence of helper calls on the same match
 result, the k-th call returns what that helper returns on the original tree, whatever was
 called before (this is the obligation on the Go code that takes `[]any` by reference; the
 correspondence run checks it on one real tree per sequence, key `helper-mutates-input`). -/
-theorem C30_helpers_pure (wrapf : V α → V α) (fn : Nat → V α → V α → V α) (fuel : Nat)
-    (ops : List HOp) (inp : List (V α)) (k : Nat) :
-    (seqOuts wrapf fn fuel ops inp)[k]? = ops[k]?.map (fun op => applyOp wrapf fn fuel op inp) := by
+theorem C30_helpers_pure {σ : Type} (wrapf : σ → V α → σ × V α) (fn : σ → Nat → V α → V α → σ × V α)
+    (s0 : σ) (fuel : Nat) (ops : List HOp) (inp : List (V α)) (k : Nat) :
+    (seqOuts wrapf fn s0 fuel ops inp)[k]? = ops[k]?.map (fun op => applyOp wrapf fn s0 fuel op inp) := by
   simp [seqOuts]
 
 /-- Re-applying a helper after any other helper gives the same answer again. -/
-theorem C30_helpers_repeatable (wrapf : V α → V α) (fn : Nat → V α → V α → V α) (fuel : Nat)
-    (h1 h2 : HOp) (inp : List (V α)) :
-    seqOuts wrapf fn fuel [h1, h2, h1] inp =
-      [applyOp wrapf fn fuel h1 inp, applyOp wrapf fn fuel h2 inp, applyOp wrapf fn fuel h1 inp] := rfl
+theorem C30_helpers_repeatable {σ : Type} (wrapf : σ → V α → σ × V α)
+    (fn : σ → Nat → V α → V α → σ × V α) (s0 : σ) (fuel : Nat) (h1 h2 : HOp) (inp : List (V α)) :
+    seqOuts wrapf fn s0 fuel [h1, h2, h1] inp =
+      [applyOp wrapf fn s0 fuel h1 inp, applyOp wrapf fn s0 fuel h2 inp, applyOp wrapf fn s0 fuel h1 inp] := rfl
 
 theorem C30_exprHelpers_pure (fuel : Nat) (ops : List Bool) (inp : List (V E)) (k : Nat) :
     (seqExprOuts fuel ops inp)[k]? = ops[k]?.map (fun r => applyExprOp fuel r inp) := by
@@ -209,11 +415,11 @@ theorem C30_exprHelpers_pure (fuel : Nat) (ops : List Bool) (inp : List (V E)) (
 
 /-- In particular `List` followed by `RangeOp` on the result of `R % sep` still visits the `R`
 results in source order (the seeded `append(in[:1], …)` change broke exactly this). -/
-theorem C30_list_then_rangeOp (wrapf : V α → V α) (fn : Nat → V α → V α → V α) (fuel : Nat)
-    (r0 : V α) (pairs : List (V α × V α)) :
-    seqOuts wrapf fn fuel [.list, .rangeop, .list] (mkList r0 pairs) =
-      [.lst (.ok (r0 :: pairs.map (·.2))), .visited (r0 :: pairs.map (·.2)) false,
-       .lst (.ok (r0 :: pairs.map (·.2)))] := by
+theorem C30_list_then_rangeOp {σ : Type} (wrapf : σ → V α → σ × V α)
+    (fn : σ → Nat → V α → V α → σ × V α) (s0 : σ) (fuel : Nat) (r0 : V α) (pairs : List (V α × V α)) :
+    seqOuts wrapf fn s0 fuel [.list, .rangeop, .list] (mkList r0 pairs) =
+      [.lst s0 (.ok (r0 :: pairs.map (·.2))), .visited (r0 :: pairs.map (·.2)) false,
+       .lst s0 (.ok (r0 :: pairs.map (·.2)))] := by
   simp [seqOuts, applyOp, C30_list_of, C30_rangeOp_order]
 
 /-! ## the README calculator -/
